@@ -13,6 +13,7 @@ HERE = os.path.dirname(os.path.abspath(__file__))
 SRC = os.path.join(HERE, "harness.cpp")
 SCRATCH = "/tmp/bld"
 
+FENV_MODES = ("FE_UPWARD", "FE_DOWNWARD", "FE_TOWARDZERO")
 CLASSIFY_FNS = ("isfinite", "isinf", "isnan", "isnormal", "signbit", "fpclassify")
 
 
@@ -22,6 +23,13 @@ def build(which):
                                 defines=["HALF_ENABLE_F16C_INTRINSICS=0", "C08_EXPECT_F16C=0"])
     if which == "f16c":
         return vlib.compile_cxx(SRC, "c08-f16c", std="c++14", opt="-O2", san="none", flags=["-mf16c"], defines=["C08_EXPECT_F16C=1"])
+    if which == "sw-rm":
+        # same as sw, compiled with -frounding-math: the shards that run under a directed dynamic rounding mode
+        return vlib.compile_cxx(SRC, "c08-sw-rm", std="c++14", opt="-O2", san="none", flags=["-mno-f16c", "-frounding-math"],
+                                defines=["HALF_ENABLE_F16C_INTRINSICS=0", "C08_EXPECT_F16C=0", "C08_ROUNDING_MATH=1"])
+    if which == "f16c-rm":
+        return vlib.compile_cxx(SRC, "c08-f16c-rm", std="c++14", opt="-O2", san="none", flags=["-mf16c", "-frounding-math"],
+                                defines=["C08_EXPECT_F16C=1", "C08_ROUNDING_MATH=1"])
     if which == "san":
         # ASan in recover mode (flag read after every operation) + trapping bounds/null checks: a table index out of range
         # becomes SIGILL, which the harness attributes to the current operands
@@ -32,33 +40,45 @@ def build(which):
 
 
 def plan(tier):
-    """list of (job id, args, builds). The job id is the key under which sw and f16c digests are compared."""
+    """list of (job id, args, builds), most important first (jobs that would start after the deadline are skipped and capped).
+    The job id is the key under which software and F16C digests are compared."""
     jobs = []
     both = ("sw", "f16c")
+    rm = ("sw-rm", "f16c-rm")
     thorough = tier == "thorough"
-    # long jobs first
-    if thorough:
-        n = 128
-        jobs += [("pairs-f-%d" % k, ["--mode", "pairs", "--set", "f", "--shard", str(k), str(n)], both) for k in range(n)]
-        n = 128
-        jobs += [("fmad-t-%d" % k, ["--mode", "fmad", "--alpha", "t", "--shard", str(k), str(n)], both) for k in range(n)]
-        n = 32
-        jobs += [("fma-t-%d" % k, ["--mode", "fma", "--alpha", "t", "--shard", str(k), str(n)], both) for k in range(n)]
-    n = 64
-    jobs += [("f2h-%d" % k, ["--mode", "f2h", "--shard", str(k), str(n)], both) for k in range(n)]
-    if not thorough:
-        n = 16
-        jobs += [("pairs-q-%d" % k, ["--mode", "pairs", "--set", "q", "--shard", str(k), str(n)], both) for k in range(n)]
-        n = 16
-        jobs += [("fma-q-%d" % k, ["--mode", "fma", "--alpha", "q", "--shard", str(k), str(n)], both) for k in range(n)]
-        n = 4
-        jobs += [("fmad-q-%d" % k, ["--mode", "fmad", "--alpha", "q", "--shard", str(k), str(n)], both) for k in range(n)]
+    # 1. cheap and essential: all 2^16-functions, reference self-test, information-only conversions, sanitizer sub-alphabet
     jobs += [("unary", ["--mode", "unary"], both), ("selftest", ["--mode", "selftest"], both), ("info", ["--mode", "info"], ("sw",))]
-    # sanitizer build over the sub-alphabet
     jobs += [("san-unary", ["--mode", "unary", "--set", "s"], ("san",)),
              ("san-pairs", ["--mode", "pairs", "--set", "s"], ("san",)),
              ("san-fma", ["--mode", "fma", "--alpha", "s"], ("san",)),
              ("san-fmad", ["--mode", "fmad", "--alpha", "s"], ("san",))]
+    jobs += [("unary@%s" % m, ["--fenv", m, "--mode", "unary"], rm) for m in FENV_MODES]
+    # 2. default rounding mode: pairs, fma, the float sweep
+    if thorough:
+        n = 128
+        jobs += [("pairs-f-%d" % k, ["--mode", "pairs", "--set", "f", "--shard", str(k), str(n)], both) for k in range(n)]
+        jobs += [("fmad-t-%d" % k, ["--mode", "fmad", "--alpha", "t", "--shard", str(k), str(n)], both) for k in range(n)]
+        n = 32
+        jobs += [("fma-t-%d" % k, ["--mode", "fma", "--alpha", "t", "--shard", str(k), str(n)], both) for k in range(n)]
+    else:
+        n = 16
+        jobs += [("pairs-q-%d" % k, ["--mode", "pairs", "--set", "q", "--shard", str(k), str(n)], both) for k in range(n)]
+        jobs += [("fma-q-%d" % k, ["--mode", "fma", "--alpha", "q", "--shard", str(k), str(n)], both) for k in range(n)]
+        n = 4
+        jobs += [("fmad-q-%d" % k, ["--mode", "fmad", "--alpha", "q", "--shard", str(k), str(n)], both) for k in range(n)]
+    n = 64
+    jobs += [("f2h-%d" % k, ["--mode", "f2h", "--shard", str(k), str(n)], both) for k in range(n)]
+    # 3. dynamic rounding mode owned by the harness: the quick pair / fma alphabets and the complete float sweep again under each
+    #    directed mode, in both paths (builds with -frounding-math); expected bits unchanged
+    for m in FENV_MODES:
+        fe = ["--fenv", m]
+        n = 8
+        jobs += [("pairs-q-%d@%s" % (k, m), fe + ["--mode", "pairs", "--set", "q", "--shard", str(k), str(n)], rm) for k in range(n)]
+        jobs += [("fma-q-%d@%s" % (k, m), fe + ["--mode", "fma", "--alpha", "q", "--shard", str(k), str(n)], rm) for k in range(n)]
+        jobs += [("fmad-q-0@%s" % m, fe + ["--mode", "fmad", "--alpha", "q"], rm)]
+    for m in FENV_MODES:
+        n = 32
+        jobs += [("f2h-%d@%s" % (k, m), ["--fenv", m, "--mode", "f2h", "--shard", str(k), str(n)], rm) for k in range(n)]
     return jobs
 
 
@@ -122,20 +142,32 @@ def _first_diff(f1, f2, width):
             idx += len(x) // width
 
 
+def _mode_of(args):
+    return args[args.index("--fenv") + 1] if "--fenv" in args else None
+
+
+def _pair_for(args):
+    """(software build name, F16C build name) that run a job with these arguments"""
+    return ("sw-rm", "f16c-rm") if _mode_of(args) else ("sw", "f16c")
+
+
 def locate_path_difference(ctx, bins, args, stream, sub):
     """A digest differs between the two paths: re-enumerate that shard in both builds, dump the stream, name the first differing input."""
+    mode = _mode_of(args)
+    sfx = "[%s]" % mode if mode else ""
+    bsw, bhw = _pair_for(args)
     width = 8 if stream in ("half2double", "half2double_cast", "hash") else 4 if stream in ("half2float", "half2float_cast") else 2
     d = tempfile.mkdtemp(prefix="C08_dump_", dir=SCRATCH if os.path.isdir(SCRATCH) else None)
     try:
         files = {}
-        for b in ("sw", "f16c"):
+        for b in (bsw, bhw):
             files[b] = os.path.join(d, b + ".bin")
             _run_job(ctx, bins[b], "c08-" + b, args + ["--dump", stream, str(sub), files[b]])
-        fd = _first_diff(files["sw"], files["f16c"], width)
+        fd = _first_diff(files[bsw], files[bhw], width)
         if fd is None:
             raise vlib.HarnessError("digest of stream %s/%s differs between sw and f16c but the dumps are equal" % (stream, sub))
         idx, vsw, vhw = fd
-        _, recs = _run_job(ctx, bins["sw"], "c08-sw", args + ["--nth", stream, str(sub), str(idx)])
+        _, recs = _run_job(ctx, bins[bsw], "c08-" + bsw, args + ["--nth", stream, str(sub), str(idx)])
         nth = [r for r in recs if r.get("t") == "nth"]
         if not nth:
             raise vlib.HarnessError("could not map index %d of stream %s back to its operands" % (idx, stream))
@@ -146,10 +178,10 @@ def locate_path_difference(ctx, bins, args, stream, sub):
         else:
             cls = ",".join(hclass(int(o, 16)) for o in ops)
         fn = "fma" if stream == "fma_derived" else stream
-        sig = "C08/path/%s/%s/sw-differs-from-f16c" % (stream, cls)
-        msg = ("%s(%s): the software build returns %s, the F16C build returns %s (canonical bits; NaN results are compared as NaN); "
-               "results must be bit-identical whether or not the F16C path is compiled in" % (fn, ", ".join(ops), vsw, vhw))
-        ctx.violation(sig, msg, harness="c08-path", args=["--pathone", stream] + ops)
+        sig = "C08/path/%s%s/%s/sw-differs-from-f16c" % (stream, sfx, cls)
+        msg = ("%s(%s)%s: the software build returns %s, the F16C build returns %s (canonical bits; NaN results are compared as NaN); "
+               "results must be bit-identical whether or not the F16C path is compiled in" % (fn, ", ".join(ops), " under fesetround(%s)" % mode if mode else "", vsw, vhw))
+        ctx.violation(sig, msg, harness="c08-path" + ("@" + mode if mode else ""), args=["--pathone", stream] + ops)
     finally:
         shutil.rmtree(d, ignore_errors=True)
 
@@ -165,8 +197,8 @@ def _res_of(recs, stream):
 
 
 def run(ctx):
-    names = ("sw", "f16c", "san")
-    built = vlib.parallel([(lambda w=w: build(w)) for w in names], workers=3)
+    names = ("sw", "f16c", "san", "sw-rm", "f16c-rm")
+    built = vlib.parallel([(lambda w=w: build(w)) for w in names], workers=5)
     bins = dict(zip(names, built))
     jobs = plan(ctx.tier)
     reserve = 45 if ctx.tier == "quick" else 120
@@ -197,8 +229,8 @@ def run(ctx):
         _merge(ctx, sub)
         for r in recs:
             t = r.get("t")
-            if t == "dig" and b in digests:
-                digests[b][(jid, r["k"])] = (r["v"], r["raw"], r["n"], args)
+            if t == "dig" and b.split("-")[0] in digests:
+                digests[b.split("-")[0]][(jid, r["k"])] = (r["v"], r["raw"], r["n"], args)
             elif t == "xs" and b == "sw":
                 samples.setdefault(r["k"].split("/")[0], []).append(r["v"])
             elif t == "referr":
@@ -222,20 +254,23 @@ def run(ctx):
         compared += int(ns)
         stream, sub = key[1].split("/")
         if vs != vh or ns != nh:
-            differing.setdefault(stream, []).append((key[0], int(sub), list(args)))
+            differing.setdefault((stream, _mode_of(args) or ""), []).append((key[0], int(sub), list(args)))
         elif rs != rh:
             raw_only.add(stream)
     located = 0
-    for stream in sorted(differing):
-        jid, sub, args = differing[stream][0]
-        if len(differing[stream]) > 1:
-            ctx.note("path comparison: %d digests of stream %s differ between the software and the F16C build; the first one (job %s, chunk %d) is re-enumerated" % (len(differing[stream]), stream, jid, sub))
-        if located < 4 and ctx.time_left() > 30:
+    for dk in sorted(differing):
+        stream = dk[0]
+        jid, sub, args = differing[dk][0]
+        if len(differing[dk]) > 1:
+            ctx.note("path comparison: %d digests of stream %s%s differ between the software and the F16C build; the first one (job %s, chunk %d) is re-enumerated" % (
+                len(differing[dk]), stream, " under " + dk[1] if dk[1] else "", jid, sub))
+        if located < 6 and ctx.time_left() > 30:
             locate_path_difference(ctx, bins, args, stream, sub)
             located += 1
         else:
-            ctx.violation("C08/path/%s/unlocated/sw-differs-from-f16c" % stream, "digest of %s/%d (job %s) differs between the software and the F16C build" % (stream, sub, jid),
-                          harness="c08-path", args=["--pathjob", stream, str(sub)] + args)
+            m = _mode_of(args)
+            ctx.violation("C08/path/%s%s/unlocated/sw-differs-from-f16c" % (stream, "[%s]" % m if m else ""), "digest of %s/%d (job %s) differs between the software and the F16C build" % (stream, sub, jid),
+                          harness="c08-path" + ("@" + m if m else ""), args=["--pathjob", stream, str(sub)] + args)
     missing = [k for k in digests["sw"] if k not in digests["f16c"]] + [k for k in digests["f16c"] if k not in digests["sw"]]
     if missing and not skipped and not crashed:
         raise vlib.HarnessError("digest streams present in only one build: %s" % missing[:4])
@@ -245,7 +280,8 @@ def run(ctx):
 
     # ---- evidence
     ctx.stats["evaluations"] = sum(v for k, v in ctx.stats.items() if k.startswith("evaluations_"))
-    ctx.stats["distinct_nontrivial"] = ctx.stats.get("nontrivial_sw", 0)
+    ctx.stats["distinct_nontrivial"] = ctx.stats.get("nontrivial_sw", 0)   # default mode, software build: every case once
+    ctx.stats["evaluations_under_directed_rounding_modes"] = sum(v for k, v in ctx.stats.items() if k.startswith("evaluations_") and "[FE_" in k)
     order = ["float2half", "pair", "fma", "sqrt"]
     i = 0
     while len(ctx.samples) < 12 and any(samples.get(k) for k in order):
@@ -262,14 +298,17 @@ def run(ctx):
            "+ - * /, == != < > <= >=, copysign and hash-of-equal-values on the pair set {(a,b): a in A512, b any} u {a in A4096, b in A4096} u {a any, b in A512} (A4096 = sign x every exponent field x 64 boundary mantissas, A512 = sign x every exponent x {0,1,2,0x1FF,0x200,0x201,0x3FE,0x3FF}; both contain +-0, subnormals, +-inf, quiet and signalling NaNs); ")
         + ("fma on all triples over the 1024-value alphabet (sign x every exponent x 16 mantissas) and, for every pair (x,y) with x or y in A4096, on the 6 tie-breaking z {+-0, +-2^-24, +-2^-14} and the up to 8 z within 2 ulp of -round(x*y) / 1 ulp of +round(x*y) (massive cancellation). " if thorough else
            "fma on all triples over A512 and, for every pair (x,y) in A4096^2 with x or y in A512, on the 6 tie-breaking z {+-0, +-2^-24, +-2^-14} and the up to 8 z within 2 ulp of -round(x*y) / 1 ulp of +round(x*y) (massive cancellation). ")
-        + "evaluations = judged implementation results over all builds. distinct_nontrivial = distinct (function, operand tuple) cases of the software build (each enumerated exactly once) whose exact real result is NOT a binary16 value and whose correctly rounded result is finite and non-zero, "
-        "or is infinity although |exact| < 2^16 - i.e. the guard/sticky/tie logic decided the answer (float->half counted once per float, not per entry point; conversions from half, comparisons, classification and hash have no such notion and are not counted).")
+        + "Dynamic rounding mode (owned by the harness): the complete float->half sweep, all the 2^16-functions, and + - * / , comparisons, copysign on the quick pair set and fma on A512^3 and the quick derived family are repeated in both paths "
+        "(builds with -frounding-math) after fesetround(FE_UPWARD), FE_DOWNWARD and FE_TOWARDZERO (set once per shard, verified to be in effect on float and double arithmetic, restored at the end); the expected bits are the same round-to-nearest-even bits and the sw/F16C digests must agree under each mode. "
+        "evaluations = judged implementation results over all builds and modes. distinct_nontrivial = distinct (function, operand tuple) cases of the software build (each enumerated exactly once) whose exact real result is NOT a binary16 value and whose correctly rounded result is finite and non-zero, "
+        "or is infinity although |exact| < 2^16 (default rounding mode only; the repetitions under the three directed modes are the same operand tuples and are not counted again) - i.e. the guard/sticky/tie logic decided the answer (float->half counted once per float, not per entry point; conversions from half, comparisons, classification and hash have no such notion and are not counted).")
     ctx.assumptions += [
         "the exact integer reference refs/C08_half_ref.hpp is trusted; it is cross-checked on every run against double arithmetic (exact for + - *, innocuous double rounding for / and sqrt, TwoSum + round-to-odd for fma), against an ldexp construction for conversions, and - through the F16C build - against the hardware conversion on all 2^32 floats",
         "NaN results are compared as 'is a NaN' (payload and, except for unary minus/fabs/copysign, sign of a NaN result are not judged); the software half->float path keeps signalling NaNs signalling while the hardware quiets them - reported as a note, not a violation",
         "isnormal and fpclassify are judged by the binary16 class of the operand (a subnormal half is a normal float, so the float functions cannot be the oracle there); isfinite/isinf/isnan/signbit agree with both",
         "double->half, integer<->half (half_cast, converting constructor from wider types) are enumerated on boundary values and reported as notes only - the statement does not claim them",
         "fma: the 2^48 triples are not exhausted; the claim is exactly the two stated families",
+        "dynamic rounding mode: the reference is integer arithmetic and does not depend on it; the double-based self-test and the information-only conversions run under FE_TONEAREST only; the shards under a directed mode use separate builds compiled with -frounding-math",
         "exception flags/errno (HALF_ERRHANDLING_*), rounding styles other than the default round-to-nearest, the mixed half/arithmetic-type operator templates, compound assignment and stream I/O are outside this check",
         "one toolchain: g++ 12, x86-64, -O2 (and -O1 under ASan)",
     ]
@@ -278,27 +317,29 @@ def run(ctx):
 def replay(ctx, rec):
     h = rec.get("harness") or "c08-sw"
     args = list(rec["args"])
-    if h == "c08-path":
+    if h.startswith("c08-path"):
+        mode = h.split("@")[1] if "@" in h else None
+        pair = ("sw-rm", "f16c-rm") if mode else ("sw", "f16c")
+        fe = ["--fenv", mode] if mode else []
         if args and args[0] == "--pathjob":
             stream, sub, jobargs = args[1], int(args[2]), args[3:]
-            bins = {"sw": build("sw"), "f16c": build("f16c")}
-            out = {}
-            for b in bins:
-                _, recs = _run_job(ctx, bins[b], "c08-" + b, jobargs, timeout=1800)
-                out[b] = [r["v"] for r in recs if r.get("t") == "dig" and r["k"] == "%s/%d" % (stream, sub)]
-            if out["sw"] != out["f16c"]:
-                ctx.violation(rec["sig"], "digests differ: %s vs %s" % (out["sw"], out["f16c"]), harness="c08-path", args=args)
+            out = []
+            for b in pair:
+                _, recs = _run_job(ctx, build(b), "c08-" + b, jobargs, timeout=1800)
+                out.append([r["v"] for r in recs if r.get("t") == "dig" and r["k"] == "%s/%d" % (stream, sub)])
+            if out[0] != out[1]:
+                ctx.violation(rec["sig"], "digests differ: %s vs %s" % (out[0], out[1]), harness=h, args=args)
             return
         stream, ops = args[1], args[2:]
         fn = "classify" if stream == "classify" else "fma" if stream == "fma_derived" else stream
-        out = {}
-        for b in ("sw", "f16c"):
-            sub, recs = _run_job(ctx, build(b), "c08-" + b, ["--one", fn] + ops, timeout=120)
+        out = []
+        for b in pair:
+            sub, recs = _run_job(ctx, build(b), "c08-" + b, fe + ["--one", fn] + ops, timeout=120)
             _merge(ctx, sub)
-            out[b] = _res_of(recs, stream)
-        if out["sw"] != out["f16c"]:
-            ctx.violation(rec["sig"], "%s(%s): software build %s, F16C build %s" % (fn, ", ".join(ops), out["sw"], out["f16c"]), harness="c08-path", args=args)
+            out.append(_res_of(recs, stream))
+        if out[0] != out[1]:
+            ctx.violation(rec["sig"], "%s(%s)%s: software build %s, F16C build %s" % (fn, ", ".join(ops), " under " + mode if mode else "", out[0], out[1]), harness=h, args=args)
         return
-    which = {"c08-sw": "sw", "c08-f16c": "f16c", "c08-san": "san"}.get(h, "sw")
+    which = h[len("c08-"):] if h[len("c08-"):] in ("sw", "f16c", "san", "sw-rm", "f16c-rm") else "sw"
     sub, _ = _run_job(ctx, build(which), h, args, timeout=120)
     _merge(ctx, sub)
